@@ -94,7 +94,23 @@ def make_arrays():
     x1 = sparse.COO.from_numpy(b)
     x0.enable_caching()
     x1.enable_caching()
-    return [x0, x1]
+    # copies made by the copy constructor: COO(x) shares x's __dict__ entries, i.e. the SAME defaultdict object
+    # (two array objects, one cache: threads working on "different" arrays share the deques); COO(x, fill_value=v)
+    # gets a fresh cache (fix d7a2c41).  Made before any tocsr/tocsc, so the copies' _csr/_csc memos start empty
+    # and are per object.
+    x2 = sparse.COO(x1)
+    x3 = sparse.COO(x0)
+    x4 = sparse.COO(x0, fill_value=5)
+    return [x0, x1, x2, x3, x4]
+
+
+def alias_map(arrs):
+    """array index -> index of the first array whose cache OBJECT it shares (identity, measured on the real code)"""
+    out = {}
+    for i, x in enumerate(arrs):
+        out[i] = next((j for j in range(i) if getattr(arrs[j], "_cache", None) is not None
+                       and arrs[j]._cache is getattr(x, "_cache", None)), i)
+    return out
 
 
 def arrays_bytes(arrs):
@@ -189,13 +205,20 @@ def norm_spec(s):
 class KeyMap:
     """call spec -> model call literal and key (keys of CAttr are akey = 2*arr+w, others start at 100)"""
 
-    def __init__(self):
+    def __init__(self, alias=None):
         self.ids = {}
+        self.alias = {int(k): int(v) for k, v in (alias or {}).items()}
+
+    def base(self, arr):
+        return self.alias.get(arr, arr)
 
     def key(self, spec):
         spec = norm_spec(spec)
         if spec[0] == "A":
             return 2 * spec[1] + (1 if spec[2] == "csc" else 0)
+        if spec[0] in ("T", "R"):
+            # a lookup through an alias finds the entries inserted through the other object: one key space
+            spec = (spec[0], self.base(spec[1]), spec[2])
         if spec not in self.ids:
             self.ids[spec] = 100 + len(self.ids)
         return self.ids[spec]
@@ -206,9 +229,9 @@ class KeyMap:
         if spec[0] == "T":
             if tuple(spec[2]) == tuple(range(ndims[spec[1]])):
                 return f"(CPure {k})"
-            return f"(CCache STranspose {2 * spec[1]} {k})"
+            return f"(CCache STranspose {2 * self.base(spec[1])} {k})"
         if spec[0] == "R":
-            return f"(CCache SReshape {2 * spec[1] + 1} {k})"
+            return f"(CCache SReshape {2 * self.base(spec[1]) + 1} {k})"
         if spec[0] == "A":
             return f"(CAttr {spec[1]} {'true' if spec[2] == 'csc' else 'false'})"
         if spec[0] == "M":
@@ -270,7 +293,7 @@ def impl_explore(job):
                                               root=os.path.join(vlib.REPO, "sparse"), deadline=deadline):
         execs.append({"sched": ex.trace, "outs": outs, "same": same, "stalled": ex.stalled, "excs": excs})
     return {"table": [[list(map(_jsonable, k)), v] for k, v in tbl.items()], "execs": execs,
-            "complete": bool(st and st.complete)}
+            "complete": bool(st and st.complete), "alias": alias_map(make_arrays())}
 
 
 def impl_random(job):
@@ -289,7 +312,8 @@ def impl_random(job):
         ex = s.run(fns, [], chooser=lambda en, step: r.choice(en))
         outs, same, excs = collect()
         execs.append({"sched": ex.trace, "outs": outs, "same": same, "stalled": ex.stalled, "excs": excs})
-    return {"table": [[list(map(_jsonable, k)), v] for k, v in tbl.items()], "execs": execs, "complete": True}
+    return {"table": [[list(map(_jsonable, k)), v] for k, v in tbl.items()], "execs": execs, "complete": True,
+            "alias": alias_map(make_arrays())}
 
 
 def _jsonable(e):
@@ -315,7 +339,7 @@ def impl_schedule(job):
     return {"table": [[list(map(_jsonable, k)), v] for k, v in tbl.items()],
             "execs": [{"sched": ex.trace, "outs": outs, "same": same, "stalled": ex.stalled, "excs": excs,
                        "labels": [lab.get(l, l) if not isinstance(l, str) else l for l in ex.labels]}],
-            "complete": True}
+            "complete": True, "alias": alias_map(make_arrays())}
 
 
 # ------------------------------------------------------------------ mixed workloads (every line a scheduling point)
@@ -332,7 +356,7 @@ def mixed_operands(dt_a="int64", dt_b="int64"):
     x.enable_caching()
     z.enable_caching()
     d = (np.arange(15).reshape(5, 3) % 3).astype(dt_b)
-    return {"x": x, "y": y, "z": z, "d": d}
+    return {"x": x, "y": y, "z": z, "d": d, "xa": sparse.COO(x), "za": sparse.COO(z)}
 
 
 MIXED_OPS = {
@@ -358,6 +382,12 @@ MIXED_OPS = {
     "as_gcxs": lambda o: o["z"].asformat("gcxs"),
     "as_dok": lambda o: o["y"].asformat("dok"),
     "todense": lambda o: o["x"].todense(),
+    # the same through a second array object sharing the cache (COO(x))
+    "alias_transpose": lambda o: o["xa"].transpose((2, 0, 1)),
+    "alias_reshape": lambda o: o["xa"].reshape((12, 5)),
+    "alias_sum": lambda o: o["xa"].sum(axis=1),
+    "alias_tensordot": lambda o: __import__("sparse").tensordot(o["xa"], o["y"], axes=([2], [0])),
+    "alias_dot": lambda o: __import__("sparse").dot(o["za"], o["y"]),
 }
 
 
@@ -499,15 +529,21 @@ def scenarios(tier, rng):
         dict(name="R_hit_vs_hit", setup=[R(0, s0)], threads=[[R(0, s0)], [R(0, s0)]]),
         dict(name="R_full_deque_hit_vs_evict", setup=[R(0, s0), R(0, s1), R(0, s2)],
              threads=[[R(0, s0)], [R(0, SHAPES3[3])]]),
-        dict(name="T_prefilled2_1x1", setup=[T(0, a0), T(0, a1)], threads=[[T(0, a2)], [T(0, AXES3[3])]]),
         dict(name="R_witness_shape", setup=[], threads=[[R(0, s0)], [R(0, s1), R(0, s2)]]),
         dict(name="R_fresh_2x1", setup=[], threads=[[R(0, s0), R(0, s0)], [R(0, s1)]]),
         dict(name="TR_same_array", setup=[], threads=[[T(0, a0), R(0, s0)], [R(0, s0)]]),
         dict(name="T_identity_and_2d", setup=[], threads=[[T(0, (0, 1, 2)), T(1, (1, 0))], [T(1, (1, 0)), R(1, (4, 3))]]),
+        # --- two array objects, one cache (COO(x) shares x's defaultdict); COO(x, fill_value=v) has its own
+        dict(name="alias_T_same_key", setup=[], threads=[[T(3, a0)], [T(0, a0)]]),
+        dict(name="alias_T_hit_vs_insert", setup=[T(0, a2)], threads=[[T(3, a2)], [T(0, a1)]]),
+        dict(name="alias_R_full_hit_vs_evict", setup=[R(0, s0), R(3, s1), R(0, s2)],
+             threads=[[R(3, s0)], [R(0, SHAPES3[3])]]),
+        dict(name="alias_2d_T_and_attrs", setup=[], threads=[[T(2, (1, 0)), A(2, "csr")], [T(1, (1, 0))]]),
+        dict(name="A_csr_csc_vs_csr", setup=[], threads=[[A(1, "csr"), A(1, "csc")], [A(1, "csr")]]),
+        dict(name="fillcopy_T_own_cache", setup=[T(0, a0)], threads=[[T(4, a0)], [T(0, a1), T(3, a0)]]),
         # --- attribute memo
         dict(name="A_csr_vs_csc", setup=[], threads=[[A(1, "csr")], [A(1, "csc")]]),
         dict(name="A_csc_vs_csc", setup=[], threads=[[A(1, "csc")], [A(1, "csc")]]),
-        dict(name="A_2x2", setup=[], threads=[[A(1, "csc"), A(1, "csr")], [A(1, "csr"), A(1, "csc")]]),
         dict(name="A_pre_csc", setup=[A(1, "csc")], threads=[[A(1, "csr"), A(1, "csr")], [A(1, "csr"), A(1, "csc")]]),
         # --- dict memo
         dict(name="M_2x2", setup=[], threads=[[M("int64", "float64"), M("int8",)], [M("int64", "float64"), M("int64", "float64")]]),
@@ -524,6 +560,10 @@ def scenarios(tier, rng):
     if tier != "quick":
         ex += [
             dict(name="T_2x2", setup=[], threads=[[T(0, a0), T(0, a1)], [T(0, a1), T(0, a0)]]),
+            dict(name="T_prefilled2_1x1", setup=[T(0, a0), T(0, a1)], threads=[[T(0, a2)], [T(0, AXES3[3])]]),
+            dict(name="A_2x2", setup=[], threads=[[A(1, "csc"), A(1, "csr")], [A(1, "csr"), A(1, "csc")]]),
+            dict(name="alias_2d_T_and_attrs_2x2", setup=[],
+                 threads=[[T(2, (1, 0)), A(2, "csr")], [T(1, (1, 0)), A(1, "csr")]]),
             dict(name="T_full_deque_1x2", setup=[T(0, a0), T(0, a1), T(0, a2)],
                  threads=[[T(0, AXES3[3])], [T(0, AXES3[4]), T(0, a0)]]),
             dict(name="R_prefilled_1x2", setup=[R(0, s2)], threads=[[R(0, s0)], [R(0, s1), R(0, s0)]]),
@@ -539,7 +579,8 @@ def scenarios(tier, rng):
     # random protocol programs for 3-4 threads
     pool = ([T(0, ax) for ax in AXES3] + [R(0, sh) for sh in SHAPES3[:4]] + [T(1, (1, 0))] +
             [R(1, sh) for sh in SHAPES2[:2]] + [A(1, "csr"), A(1, "csc")] +
-            [M("int64",), M("int8", "int64")] + [P(0, "abs"), P(1, "neg"), T(0, (0, 1, 2))])
+            [M("int64",), M("int8", "int64")] + [P(0, "abs"), P(1, "neg"), T(0, (0, 1, 2))] +
+            [T(3, ax) for ax in AXES3[:3]] + [R(3, SHAPES3[0]), T(2, (1, 0)), A(2, "csc"), T(4, AXES3[0]), R(4, SHAPES3[1])])
     rnd = []
     for i in range(8 if tier == "quick" else 30):
         n = rng.choice([3, 4])
@@ -549,16 +590,17 @@ def scenarios(tier, rng):
 
 
 # ------------------------------------------------------------------ Coq literals
-NDIMS = {0: 3, 1: 2}
+NDIMS = {0: 3, 1: 2, 2: 2, 3: 3, 4: 3}
 
 
-def case_literal(scn, table, execu):
-    km = KeyMap()
+def case_literal(scn, table, execu, alias=None):
+    km = KeyMap(alias)
     # assign keys deterministically in order of appearance
     specs = list(scn["setup"]) + [s for p in scn["threads"] for s in p]
     for s in specs:
         km.key(s)
     tbl = {norm_spec(tuple(k)): v for k, v in table}
+    # (first occurrence wins: alias specs share the base's key; the judge's table lookup takes the first entry)
     tl = vlist([(km.key(s), tbl[norm_spec(s)]) for s in dict.fromkeys(map(norm_spec, specs))],
                lambda kv: vpair(vZ(kv[0]), vZ(kv[1])))
     setup = "[" + "; ".join(km.lit(s, NDIMS) for s in scn["setup"]) + "]"
@@ -666,7 +708,7 @@ def campaign(build, tier, seed, report, budget=1):
                 if e.get("stalled"):
                     broken_jobs.append({"scenario": scn["name"], "stalled": e["sched"]})
                     continue
-                lits.append(case_literal(scn, r["table"], e))
+                lits.append(case_literal(scn, r["table"], e, r.get("alias")))
                 meta.append((kind, scn, e))
     both = dict(build.judge("c13_sched", IMPORTS, CASE_TYPE, "fun c => judge_sched c + 8 * tag_sched c", lits, chunk=400))
     if len(both) != len(lits):
